@@ -64,6 +64,9 @@ impl Property for C06 {
         for _ in 0..rng.below(6) {
             ops.push(module_call(rng));
         }
+        if rng.chance(1, 6) {
+            ops.push(BOp::SetVersion(*rng.pick(&[1u8, 1, 0, 3]), rng.below(7) as u8));
+        }
         let nfuncs = rng.below(4);
         for _ in 0..nfuncs {
             ops.push(BOp::BeginFunction { explicit_id: rng.chance(1, 3), control: rng.below(16) as u32 });
@@ -90,6 +93,10 @@ impl Property for C06 {
             ops.push(BOp::EndFunction);
             for _ in 0..rng.below(3) {
                 ops.push(module_call(rng));
+            }
+            if rng.chance(1, 6) {
+                // the version may be set again at any time; the last call decides
+                ops.push(BOp::SetVersion(*rng.pick(&[1u8, 1, 0, 3]), rng.below(7) as u8));
             }
         }
         Trace { ops }
